@@ -118,8 +118,8 @@ func init() {
 			{Name: "C04F", QuickRuns: 1000000000, QuickMs: 20000, ThoroughRuns: 1000000000, ThoroughMs: 480000},
 			{Name: "C04T", QuickRuns: 1000000000, QuickMs: 8000, ThoroughRuns: 1000000000, ThoroughMs: 240000, Note: "extended mode: TLB retention"},
 		},
-		Rule: "C04: one evaluation = one seeded history (up to 40 operations: Map, Unmap, Translate, MapRegion, IdentityMapRegion, MapTemporary, pdt.Map/Unmap on active and inactive spaces, Activate, new address spaces through the real pdt.Init, planted huge-page entries) over a pool of pages built to share or not share every table level, with seeded allocation/temporary-mapping failures; after every operation an independent walker compares every present leaf of every address space with the page->entry model, checks new levels, TLB invalidations, bit-for-bit preservation of the active space for inactive-space operations and Translate. C04F: a short fault-free history is executed, then re-executed once per (operation j, allocation k) failing exactly that allocation (systematic fault enumeration). Non-trivial = >= 4 operations and at least one mapping established or failure injected; distinct = hash of the operation sequence.",
-		Assume:   []string{"ideal MMU: no stale TLB entries, no paging-structure caches (the TLB is an oracle input: which pages were invalidated)", "the data path of temporary mappings is shimmed (identity page of the frame)", "the arithmetic computing the next table's virtual address from the entry's virtual address is not exercised (nextAddrFn ignores its argument)"},
+		Rule: "C04: one evaluation = one seeded history (up to 40 operations: Map, Unmap, Translate, MapRegion, IdentityMapRegion, MapTemporary, pdt.Map/Unmap on active and inactive spaces, Activate, new address spaces through the real pdt.Init, planted huge-page entries) over a pool of pages built to share or not share every table level, with seeded allocation/temporary-mapping failures; after every operation an independent walker compares every present leaf of every address space with the page->entry model, checks new levels, TLB invalidations, bit-for-bit preservation of the active space for inactive-space operations and Translate. C04F: a short fault-free history is executed, then re-executed once per (operation j, allocation k) failing exactly that allocation (systematic fault enumeration). C04T: as C04 without injected failures but with a simulated TLB that retains recursive-window translations until invalidated or evicted (seeded eviction per operation); failures in which a retained translation was used are reported as C04/stale-tlb. Non-trivial = >= 4 operations and at least one mapping established or failure injected; distinct = hash of the operation sequence.",
+		Assume:   []string{"C04/C04F: ideal MMU, no stale TLB entries (the TLB is an oracle input: which pages were invalidated); C04T: leaf translations of the recursive-mapping window may be retained; paging-structure caches are never modelled", "the data path of temporary mappings is shimmed (identity page of the frame)", "the arithmetic computing the next table's virtual address from the entry's virtual address is not exercised (nextAddrFn ignores its argument)"},
 		Required: []string{"c04.new_levels_1", "c04.new_levels_2", "c04.new_levels_3", "c04.op_on_inactive_space", "c04.alloc_fail_in_map", "c04.alloc_fail_in_region", "c04.huge_page_error", "c04.new_space", "c04.activate", "c04.region_mapped", "c04f.fault_points_enumerated"},
 	})
 	addProp(&propSpec{
